@@ -49,7 +49,7 @@ def model_run(prog, events, drv=None):
     return drv.call('engine.run', {'spec': cs.spec_json(prog), 'events': events})
 
 
-def replay(prog, events, seed=1, compare=True, drv=None, drain=False):
+def replay(prog, events, seed=1, compare=True, drv=None, drain=False, id_mode='random'):
     """drain=True: after the event list, the real engine is run to quiescence (oldest enabled delivery first,
     real actions); the deliveries are appended to the event list as model events and compared as well"""
     from harness import boot
@@ -58,7 +58,9 @@ def replay(prog, events, seed=1, compare=True, drv=None, drain=False):
     from harness import wfgen
     from harness.engine_driver import EngineWorld
     mo = model_run(prog, events, drv) if compare else None
-    w = EngineWorld(seed=seed)
+    # id_mode='seq': ids in creation order (the order in which rows are listed, e.g. the IDLE tasks on resume, whose
+    # start requests are post-commit operations of ONE transaction and are delivered in that order)
+    w = EngineWorld(seed=seed, id_mode=id_mode)
     w.create_workflows(wfgen.render_yaml(prog))
     mapper = cs.Mapper(w)
     root = None
